@@ -144,7 +144,9 @@ PROPS = {
         'bounded': [],
         'custom': [('contracts.b_stmts', 'bounded_dataflow')],
         'assumptions': [PY_SUBSET],
-        'explanation': 'last-assignment lookup proved for all statement lists; dependency analyses bounded',
+        'explanation': 'last-assignment lookup, find_assignment, find_assignment_index and reassign (exactly one '
+                       'assignment of the symbol remains, it is the new one, nothing in front of the first old one '
+                       'moves) proved for all statement lists; dependency analyses and the order kept by reassign bounded',
     },
     'C19': {
         'level': 'other',
